@@ -13,6 +13,7 @@ from ..compiler.compiler import Compiled
 from .utils import Configuration
 from typing import Annotated
 from rich import print
+from rich.markup import escape
 import typer
 
 filename_type = Annotated[
@@ -84,8 +85,8 @@ def compile(
 def compile_with_error(e: CompilationError):
     if isinstance(e, GeneralError):
         all_error = "\n".join(listify_stack_nodes(e.stack_traceback(5)))
-        print(f"[red]{all_error}[/red]")
-    print(f"[bold red]{type(e).__name__}:[/bold red] {e.args[0]}")
+        print(f"[red]{escape(all_error)}[/red]")
+    print(f"[bold red]{type(e).__name__}:[/bold red] {escape(str(e.args[0]))}")
     print(f"---\n[bold bright_red]Compile failed with an error.[/bold bright_red] ⛔")
     print_std_out(e)
     print("---")
@@ -129,7 +130,7 @@ def print_std_data(data: list[StdOutData]):
 
         file_str = "" if i.file is None else f"{i.file.name} - "
         line_num = str(i.line.number).zfill(file_digit_lengths.get(i.file, 0))
-        print(f"[bold]{file_str}{line_num} > {i.line.content}[/bold]")
+        print(f"[bold]{escape(f'{file_str}{line_num} > {i.line.content}')}[/bold]")
 
 
 def display_warnings(warnings: WarningsObject):
@@ -140,9 +141,9 @@ def display_warnings(warnings: WarningsObject):
         if warning.stacktrace:
             stack_trace = "\n".join(listify_stack_nodes(warning.stacktrace))
             print(f"[{title_col}] -> Stacktrace[/{title_col}]")
-            print(f"[{text_col}]{stack_trace}[/{text_col}]")
+            print(f"[{text_col}]{escape(stack_trace)}[/{text_col}]")
         print(f"[{title_col}] -> Warning[/{title_col}]")
-        print(f"[{text_col}]{warning.error}[/{text_col}]")
+        print(f"[{text_col}]{escape(warning.error)}[/{text_col}]")
 
 
 def __prepare_and_compile(
